@@ -1415,6 +1415,68 @@ func posSources(w *World, lf *LexFacts, info *types.Info, loop *ast.ForStmt, arm
 			}
 			return true
 		})
+		// the text whose line breaks are counted is the text the position was advanced by: the pieces
+		// of a part of the lexeme (the comment without its delimiters) end before the lexeme does, and
+		// the column base computed from the last piece is off by the length of what was left out
+		{
+			var canon func(e ast.Expr, d int) string
+			canon = func(e ast.Expr, d int) string {
+				if id, ok := e.(*ast.Ident); ok && d < 4 {
+					if o := objOf(id); o != nil && len(defs[o]) == 1 && defs[o][0].rhs != nil && within(arm.Body, o.Pos()) {
+						return canon(defs[o][0].rhs, d+1)
+					}
+				}
+				if p, ok := e.(*ast.ParenExpr); ok {
+					return canon(p.X, d)
+				}
+				return types.ExprString(e)
+			}
+			var advancedBy []string
+			var advVar types.Object
+			var counted []ast.Expr
+			ast.Inspect(arm.Body, func(nd ast.Node) bool {
+				switch x := nd.(type) {
+				case *ast.AssignStmt:
+					if x.Tok == token.ADD_ASSIGN && len(x.Lhs) == 1 && len(x.Rhs) == 1 {
+						if o := objOf(x.Lhs[0]); o != nil && !within(arm.Body, o.Pos()) {
+							if c, ok := x.Rhs[0].(*ast.CallExpr); ok {
+								if id, ok := c.Fun.(*ast.Ident); ok && id.Name == "len" && len(c.Args) == 1 {
+									if tv, ok := info.Types[c.Args[0]]; ok && isString(tv.Type) {
+										advancedBy = append(advancedBy, canon(c.Args[0], 0))
+										advVar = o
+									}
+								}
+							}
+						}
+					}
+				case *ast.CallExpr:
+					if co := calleeObj(info, x); co != nil && co.Pkg() != nil && co.Pkg().Path() == "strings" && (co.Name() == "Split" || co.Name() == "LastIndex" || co.Name() == "LastIndexByte") && len(x.Args) == 2 {
+						if sep, ok := constString(info, x.Args[1]); ok && sep == "\n" {
+							counted = append(counted, x.Args[0])
+						}
+					}
+				}
+				return true
+			})
+			if len(advancedBy) == 1 && len(counted) > 0 {
+				ckey := fmt.Sprintf("pos:extent:arm#%d", i)
+				wrong := ""
+				for _, c := range counted {
+					// the source from some earlier position up to the current one ends where the lexeme ends
+					if se, ok := c.(*ast.SliceExpr); ok && se.High != nil && objOf(se.High) == advVar && advVar != nil {
+						continue
+					}
+					if canon(c, 0) != advancedBy[0] {
+						wrong = types.ExprString(c)
+					}
+				}
+				if wrong != "" {
+					r.Bad("R-C11-pos", ckey, w.Pos(arm.Pos), fmt.Sprintf("the position is advanced by len(%s) but the line breaks are looked for in %s, which is not that text: the column base taken from its last line is off by what was left out (the delimiters of the comment)", advancedBy[0], wrong))
+				} else {
+					r.Ok("R-C11-pos", ckey, w.Pos(arm.Pos), "line breaks are looked for in the very text the position was advanced by")
+				}
+			}
+		}
 		rkey := fmt.Sprintf("pos:reset:arm#%d", i)
 		if len(resets) > 0 {
 			r.Bad("R-C11-pos", rkey, w.Pos(arm.Pos), fmt.Sprintf("%v is set back to a constant whether or not the lexeme contained a line break: after a lexeme of this arm that stays on one line (x /* c */ y) the following tokens report a column counted from the start of the line's lexeme instead of their own", uniq(resets)))
